@@ -18,6 +18,13 @@ B = [
  ("C15-b01","C15","configure/configure.go",[("\tc.loaders = append(c.loaders, loaders...)","\tmerged := append(c.loaders, loaders...)\n\tc.loaders = merged")],"temporary in AddLoaders"),
  ("C06-b01","C06","container/support/component_definition_registry.go",[("\t\tif container.And(opts...)(m) {","\t\taccept := container.And(opts...)\n\t\tif accept(m) {")],"predicate bound to a local first"),
  ("C18-b01","C18","container/processors/validate_aware_post_processors.go",[("\t\t\tvar p = prop.Type\n","\t\t\tp := prop.Type\n")],"short variable declaration"),
+ # ---- second batch: functions whose contracts use call-site hooks, ghost traces, measures ----
+ ("C05-b02","C05","container/factory/factory.go",[("\t\tf.logger().Tracef(\"inject dependencies for '%s'\", name)\n","\t\tf.logger().Tracef(\"inject %d dependencies for '%s'\", len(properties), name)\n")],"extra len() call in populateComponent (shifts call ordinals)"),
+ ("C09-b02","C09","container/factory/factory.go",[("\t\tif p, ok := singleton.(container.DefinitionRegistryPostProcessor); ok {\n\t\t\tf.definitionRegistryPostProcessors = append(f.definitionRegistryPostProcessors, p)\n\t\t}\n\t\tif p, ok := singleton.(container.ComponentFactoryPostProcessor); ok {\n\t\t\tfactoryPostProcessors = append(factoryPostProcessors, p)\n\t\t}\n","\t\tif p, ok := singleton.(container.ComponentFactoryPostProcessor); ok {\n\t\t\tfactoryPostProcessors = append(factoryPostProcessors, p)\n\t\t}\n\t\tif p, ok := singleton.(container.DefinitionRegistryPostProcessor); ok {\n\t\t\tf.definitionRegistryPostProcessors = append(f.definitionRegistryPostProcessors, p)\n\t\t}\n")],"two independent role checks reordered in PrepareComponents (swaps append ordinals)"),
+ ("C05-b03","C05","container/factory/post_processor_registration_delegate.go",[("\t\t\tif ok {\n\t\t\t\t_, err := ipb.PostProcessProperties(meta.GetAllProperties(), meta.Raw, name)","\t\t\tif !ok {\n\t\t\t\tcontinue\n\t\t\t}\n\t\t\t{\n\t\t\t\t_, err := ipb.PostProcessProperties(meta.GetAllProperties(), meta.Raw, name)")],"opt-out written as continue (same behaviour as the nested if)"),
+ ("C02-b01","C02","container/factory/factory.go",[("\tsharedInstance, err = f.singletonComponentRegistry.GetSingletonOrCreateByFactory(name,\n\t\tcontainer.FuncSingletonFactory(func() (*component_definition.Meta, error) {\n\t\t\treturn f.createComponent(name)\n\t\t}))","\tcreator := container.FuncSingletonFactory(func() (*component_definition.Meta, error) {\n\t\treturn f.createComponent(name)\n\t})\n\tsharedInstance, err = f.singletonComponentRegistry.GetSingletonOrCreateByFactory(name, creator)")],"creating closure bound to a local first"),
+ ("C15-b02","C15","configure/binder/viper.go",[("\terr := d.Viper.MergeConfig(bytes.NewBuffer(c))","\tbuf := bytes.NewBuffer(c)\n\terr := d.Viper.MergeConfig(buf)")],"temporary in ViperBinder.SetConfig"),
+ ("C02-b02","C02","component_definition/meta.go",[("\t\tif field.Anonymous && field.Tag == \"\" && field.Type.Kind() == reflect.Struct {","\t\tembedded := field.Anonymous && field.Tag == \"\"\n\t\tif embedded && field.Type.Kind() == reflect.Struct {")],"embedded-struct test split over a local"),
 ]
 def main():
     env = dict(os.environ, GOFLAGS="-mod=mod", GOPROXY="off", GOSUMDB="off", GOTOOLCHAIN="local")
